@@ -151,3 +151,49 @@ func escapesC01(c *Ctx) {
 	}
 	c.Floor("C01.escapes", n, 8)
 }
+
+// intWidthC01: integer literals keep their written value.
+func intWidthC01(c *Ctx) {
+	p := c.P
+	c.Rule("C01.intwidth", "every strconv.ParseInt / ParseUint in the package converts in base 10 at 64 bits unless its error result is examined: a narrower size with the error dropped silently saturates a legal value (LIMIT 3000000000 stored as 2147483647)")
+	n := 0
+	for _, fn := range p.SrcFuncs() {
+		seen := 0
+		for _, f := range append([]*ssa.Function{fn}, fn.AnonFuncs...) {
+			for _, b := range f.Blocks {
+				for _, in := range b.Instrs {
+					call, ok := in.(*ssa.Call)
+					if !ok || call.Call.StaticCallee() == nil {
+						continue
+					}
+					name := call.Call.StaticCallee().String()
+					if name != "strconv.ParseInt" && name != "strconv.ParseUint" {
+						continue
+					}
+					n++
+					seen++
+					key := fmt.Sprintf("%s: %s #%d", fn.Name(), name, seen)
+					base, okB := call.Call.Args[1].(*ssa.Const)
+					bits, okS := call.Call.Args[2].(*ssa.Const)
+					errUsed := false
+					for _, ref := range *call.Referrers() {
+						if ex, ok := ref.(*ssa.Extract); ok && ex.Index == 1 && len(*ex.Referrers()) > 0 {
+							errUsed = true
+						}
+					}
+					switch {
+					case !okB || !okS || base.Value == nil || bits.Value == nil:
+						c.Unk("C01.intwidth", key, call.Pos(), "base or size is not a constant")
+					case bits.Value.String() != "64" && !errUsed:
+						c.Bad("C01.intwidth", key, call.Pos(), "size "+bits.Value.String()+" with the error dropped: a value that needs more bits is stored saturated, not rejected")
+					case base.Value.String() != "10" && base.Value.String() != "0" && !errUsed:
+						c.Bad("C01.intwidth", key, call.Pos(), "base "+base.Value.String())
+					default:
+						c.OK("C01.intwidth", key, call.Pos(), fmt.Sprintf("base %s, %s bits, error examined=%v", base.Value, bits.Value, errUsed))
+					}
+				}
+			}
+		}
+	}
+	c.Floor("C01.intwidth", n, 4)
+}
